@@ -367,7 +367,9 @@ async fn run_script(c: &Value) -> Value {
                     let shared = shared.clone();
                     let activity = activity.clone();
                     s.spawn_bg(async move {
-                        let st = q.open(ctx).await?;
+                        let Ok(st) = q.open(ctx).await else {
+                            return Ok(());
+                        };
                         let mut sh = shared.lock().unwrap();
                         let sl = sh.slots.get_mut(&slot).unwrap();
                         sl.opened = true;
